@@ -69,7 +69,7 @@ def main():
         ex.close()
         if X.is_exc(obs):
             raise RuntimeError("introspection failed: %r" % (obs,))
-        env.spec = json.loads(json.dumps(X.decode(obs)).replace("<W>", env.world.root))
+        env.spec = X.decode(obs)   # paths stay in canonical "<W>/..." form: the model is location independent
         env.model = Model(env.spec)
         env.cache = {}
     except BaseException:
